@@ -491,7 +491,53 @@ def scss_case(rng, style, nonascii):
     return src, data.imports + data.body, st
 
 
+def deep_cases(rng):
+    """towers of 38..64 nested blocks (the indentation passes the 80 preallocated columns of `get_indent` at depth 41)
+    around a rule with a declaration and a (loud, multi-line) comment — both styles"""
+    depths = [38, 40, 41, 42, rng.randint(43, 63), 64]
+    for d in depths:
+        inner_css = [("P", b"b", A("c")), ("C", b"! x\n   y "), ("C", b" z ")]
+        # (1) plain CSS: @media tower around a rule
+        tree = [("R", A("a"), inner_css)]
+        src = "a{b:c;/*! x\n   y *//* z */}"
+        for i in range(d):
+            tree = [("M", A("screen"), tree)]
+            src = "@media screen{" + src + "}"
+        for st in "ec":
+            yield Case("\t".join(["c07w", st, "css", hx(src), " ".join(enc_tree(tree))]), "deep-nesting", {"depth": d})
+        # (2) SCSS: tower of unknown at-rules around a rule; (3) the same tower inside a rule (carried selector)
+        for inside_rule in (False, True):
+            for st in "ec":
+                data = Dest("data")
+                dests = []
+                cur, sel = data, None
+                if inside_rule:
+                    sel = A("p")
+                    cur = cur.start_rule(sel)
+                    dests.append(cur)
+                for i in range(d):
+                    cur = cur.start_at(("l%d" % i).encode(), None)
+                    dests.append(cur)
+                rsel = nest(sel, A("a"))
+                r = cur.start_rule(rsel)
+                r.push_leaf(("P", b"b", A("c")))
+                r.push_leaf(("C", b"! x\n   y "))
+                if st == "e":
+                    r.push_leaf(("C", b" z "))
+                r.drop()
+                for x in reversed(dests):
+                    x.drop()
+                src = "a{b:c;/*! x\n   y *//* z */}"
+                for i in reversed(range(d)):
+                    src = "@l%d{" % i + src + "}"
+                if inside_rule:
+                    src = "p{" + src + "}"
+                yield Case("\t".join(["c07w", st, "scss", hx(src), " ".join(enc_tree(data.imports + data.body))]),
+                           "deep-nesting", {"depth": d})
+
+
 def gen(tier, rng, boost=1):
+    yield from deep_cases(rng)
     n_css = (350 if tier == "quick" else 6000) * boost
     n_scss = (250 if tier == "quick" else 4000) * boost
     fixed = [
@@ -665,7 +711,8 @@ def shrink(case, still_fails):
     return None
 
 
-RULE = ("CSS trees (comments incl. multi-line/indented, imports, rules, @media, unknown at-rules, declarations, custom "
+RULE = ("towers of 38..64 nested @media / unknown at-rule blocks (indentation beyond get_indent's 80 preallocated columns) "
+        "around a rule with a declaration and comments, plain CSS and SCSS, both styles; CSS trees (comments incl. multi-line/indented, imports, rules, @media, unknown at-rules, declarations, custom "
         "properties; 40% with non-ASCII atoms; nesting <= 4) rendered as plain-CSS input with random whitespace and as nested "
         "SCSS (tree predicted by a port of cssdest.rs), both styles, compared byte-exact with the model writer; plus "
         "spec-corpus inputs (quick: 250 sampled, thorough: all without mock files) in both styles under the byte oracle; "
